@@ -5,6 +5,7 @@ The codecs are parameters; these theorems cover what py7zr itself does to the by
 import SevenZ.Lemmas.Aes
 import SevenZ.Lemmas.Decode
 import SevenZ.Lemmas.Utf16
+import SevenZ.Lemmas.Session
 namespace SevenZ.C01
 open SevenZ SevenZ.Impl
 
@@ -45,6 +46,30 @@ theorem names_roundtrip (cs : List Nat) (hs : ∀ c ∈ cs, IsScalar c)
     (hlen : (cs.flatMap unitsOf).length < maxLength) (tail : Bytes) :
     readUtf16 (writeUtf16 cs ++ tail) = some (cs, tail) :=
   SevenZ.utf16_roundtrip cs hs hlen tail
+
+
+/-- **Container round trip of a create session.**  For every list of write calls, every codec
+    chain and every block size, an independent reader of the archive the session leaves
+    (`C07.session_archive_conforms`: it finds exactly `expectedMembers ms`) lists exactly the
+    written names in call order, and the (folder offset, size) it assigns to each data member
+    cuts the folder's decoded output — which is the concatenation of the members' bytes whenever
+    the codec chain inverts, the one hypothesis about the codecs — back into exactly the bytes
+    written for that member.  No bound on the number of members, their sizes or the blocks. -/
+theorem container_roundtrip (ms : List WMember) :
+    (expectedMembers ms).map (·.file.name) = ms.map (fun m => some m.name) ∧
+    (expectedMembers ms).filterMap (sliceOf (((dataMembers ms).map (fun m => m.blocks.flatten)).flatten)) =
+      (dataMembers ms).map (fun m => m.blocks.flatten) :=
+  expectedMembers_roundtrip ms
+
+/-- the sizes and checksums stored for the members are those of the bytes (any chain, any blocks) -/
+theorem stored_sizes_crcs {σ} (chain : List (StageSt σ)) (hne : chain ≠ []) (hfed : headFed chain = 0)
+    (members : List (List Bytes)) :
+    (compressAll ({ chain := chain } : Cmp σ) members).2 = members.map (fun m => (m.flatten.length, crc32 m.flatten)) :=
+  (SevenZ.compressor_accounting chain hne hfed members).1
+
+example : (expectedMembers [{ name := [97], emptystream := false, blocks := [[1, 2], [3]] }, { name := [98], emptystream := true },
+    { name := [99], emptystream := false, blocks := [[9]] }]).map (·.stream) =
+    [some (0, 0, 3, some 1438416925), none, some (0, 3, 1, some 2883475241)] := by decide +kernel
 
 example : (aesFlush (aesRun {} [[1, 2, 3], List.replicate 20 7, [9]])).fed.map List.length = [16, 16] := by decide
 example : ∀ c ∈ [List.replicate 17 (1 : Nat), List.replicate 31 2], c.length ≥ 16 := by decide
